@@ -115,6 +115,78 @@ func (n *logNode) Post(ctx ctxT, st *flyt.SharedStore, p, e any) (flyt.Action, e
 
 const kLog = 100 // spec.kind for logNode
 
+// The same logging node behind the other Node implementations a flow's table may be keyed by:
+// a *BatchNodeBuilder (one item per visit), the bare *BatchNode inside such a builder, and a
+// *NodeBuilder.  Only used with menus whose prep/exec always succeed.
+const (
+	kLogBatch     = 101
+	kLogBatchBare = 102
+	kLogBuilder   = 103
+)
+
+var logKindNames = map[int]string{kLog: "struct", kLogBatch: "batchBuilder", kLogBatchBare: "bareBatchNode", kLogBuilder: "nodeBuilder"}
+
+func appendLog(st *flyt.SharedStore, id string) {
+	if st == nil {
+		return
+	}
+	l, _ := st.Get("log")
+	ll, _ := l.([]string)
+	st.Set("log", append(append([]string(nil), ll...), id))
+}
+
+func (h *H) buildLogVariant(s *spec) flyt.Node {
+	var cur *flyt.SharedStore
+	if s.kind == kLogBuilder {
+		return flyt.NewNode().
+			WithPrepFuncAny(func(ctx ctxT, st *flyt.SharedStore) (any, error) {
+				a := h.on(call{node: s, ph: pPrep, store: st, ctx: ctx})
+				cur = st
+				return a.val, a.err
+			}).
+			WithExecFuncAny(func(ctx ctxT, p any) (any, error) {
+				a := h.on(call{node: s, ph: pExec, attempt: h.attemptOf(s), prepVal: p, ctx: ctx})
+				appendLog(cur, s.id)
+				return a.val, a.err
+			}).
+			WithPostFuncAny(func(ctx ctxT, st *flyt.SharedStore, p, e any) (flyt.Action, error) {
+				a := h.on(call{node: s, ph: pPost, store: st, prepVal: p, execVal: e, ctx: ctx})
+				return a.action, a.err
+			})
+	}
+	b := flyt.NewBatchNode().
+		WithPrepFunc(func(ctx ctxT, st *flyt.SharedStore) ([]flyt.Result, error) {
+			a := h.on(call{node: s, ph: pPrep, store: st, ctx: ctx})
+			cur = st
+			if a.err != nil {
+				return nil, a.err
+			}
+			return []flyt.Result{flyt.NewResult(a.val)}, nil
+		}).
+		WithExecFunc(func(ctx ctxT, it flyt.Result) (flyt.Result, error) {
+			a := h.on(call{node: s, ph: pExec, attempt: h.attemptOf(s), prepVal: it.Value(), ctx: ctx})
+			appendLog(cur, s.id)
+			if a.err != nil {
+				return flyt.Result{}, a.err
+			}
+			return flyt.NewResult(a.val), nil
+		}).
+		WithPostFunc(func(ctx ctxT, st *flyt.SharedStore, items, results []flyt.Result) (flyt.Action, error) {
+			var p, e any
+			if len(items) == 1 && len(results) == 1 {
+				p, e = items[0].Value(), results[0].Value()
+			} else {
+				core.Problem("%s: batch post received %d items / %d results, prep produced 1 item", s.id, len(items), len(results))
+			}
+			a := h.on(call{node: s, ph: pPost, store: st, prepVal: p, execVal: e, ctx: ctx})
+			return a.action, a.err
+		})
+	if s.kind == kLogBatchBare {
+		return b.BatchNode
+	}
+	return b
+}
+
 func genC03(tier string) []Scenario {
 	var out []Scenario
 	th := tier == "thorough"
@@ -211,6 +283,43 @@ func genC03(tier string) []Scenario {
 			}
 			return strings.Join(h.hist, " | ")
 		})})
+	}
+	// ---------------- A1c: what the table is keyed by: every pair of Node implementations
+	// (struct node, *BatchNodeBuilder, the bare *BatchNode, *NodeBuilder) x all tables for
+	// 2 nodes x {"a", default} x {unconnected, nil, n0, n1}
+	logKinds := []int{kLog, kLogBatch, kLogBatchBare, kLogBuilder}
+	for _, k0 := range logKinds {
+		for _, k1 := range logKinds {
+			k0, k1 := k0, k1
+			var h *H
+			body := func() {
+				ns := []*spec{{id: "n0", kind: k0, n: 1}, {id: "n1", kind: k1, n: 1}}
+				root := &spec{id: "flow", flow: &flowSpec{start: ns[0], edges: map[*spec]map[flyt.Action]*spec{}}}
+				h = newH(root)
+				h.menu = routingMenu([]flyt.Action{"a", flyt.DefaultAction}, 3, 2)
+				for _, from := range ns {
+					for _, a := range []flyt.Action{"a", flyt.DefaultAction} {
+						switch e := core.Choose(4); e {
+						case 0:
+						case 1:
+							setEdge(root, from, a, nil)
+						default:
+							setEdge(root, from, a, ns[e-2])
+						}
+					}
+				}
+				f := h.build(root).(*flyt.Flow)
+				for r := 0; r < 2; r++ {
+					h.runFlowOnce(f, fmt.Sprintf("run %d", r+1))
+				}
+			}
+			out = append(out, Scenario{Name: fmt.Sprintf("tables 2x2 node implementations n0=%s n1=%s", logKindNames[k0], logKindNames[k1]), Body: body, Check: stdCheck(func() string {
+				if h == nil {
+					return "?"
+				}
+				return strings.Join(h.hist, " | ")
+			})})
+		}
 	}
 	// ---------------- A2: Connect histories (overwrites, nil, chaining form)
 	maxLen, maxMore := 2, 1
